@@ -6,13 +6,13 @@ import gzip, json, os, sys
 sys.path.insert(0, "/verif")
 os.environ["VERIF_NO_NORMALIZE"] = "1"
 from tvrules import facts, normalize
-ref = {"fns": {}, "adts": {}}
+ref = {"fns": {}, "adts": {}, "closures": {}}
 for cfg in facts.CONFIGS:
     raw, hsh, _ = facts.load_raw(cfg)
     r = normalize.make_ref(raw)
-    for k in ("fns", "adts"):
+    for k in ("fns", "adts", "closures"):
         for i, v in r[k].items():
-            ref[k].setdefault(i, v)
+            ref[k].setdefault(i, v).setdefault("cfgs", []).append(cfg)
     print(cfg, len(r["fns"]), len(r["adts"]))
 ref["tree_hash"] = hsh
 with gzip.open(normalize.REF, "wt") as fh:
